@@ -150,3 +150,77 @@ def run(check):
     check.exhaustive = True
     check.extra["exhaustive_scope"] = "cfg expressions of depth <= %d x target lists of length <= %d" % (depth, len(tls[-1]))
     check.assumptions += ["syn parses the rendered attribute text into the Meta tree the generator built (syn is inside the compared path on the implementation side)"]
+
+
+# ----------------------------------------------------------------------------- attachment levels (L1 + CLI)
+
+from gen import Gen
+import l1
+
+NEEDS = ("runner", "cli")
+
+
+def level_part(check):
+    """cfg attributes on the file, on types, variants, fields and struct-variant fields, through
+    parser::parse with ParseContext.target_os and through --target-os of the binary"""
+    import c03
+    rng = check.rng
+    n = 6000 if check.thorough else 1200
+    cases = []
+    for i in range(n):
+        g = Gen(rng, p_cfg=0.45, p_skip=0.05, p_mod=0.2, p_noise=0.2, p_serialized_as=0.0)
+        f = g.file()
+        tos = rng.choice([[], ["ios"], ["android"], ["ios", "android"], ["macos", "wasm32"], ["linux"]])
+        m, r, text = l1.requests(f, g, target_os=tos)
+        cases.append((f, tos, m, r, text, g.features.get("cfg", 0)))
+    mans, rans, diffs = l1.compare([(c[2], c[3]) for c in cases])
+    bad = None
+    for (f, tos, m, r, text, ncfg), ma, ra in zip(cases, mans, rans):
+        check.saw("L1|" + text + "|" + ",".join(tos), nontrivial=ncfg > 0 and bool(tos))
+        check.count("level-cases-with-%s" % ("targets" if tos else "no-targets"))
+        if "typeshare" not in text:
+            continue
+        prob = c03.oracle(c03.expected(f, tos), ra)
+        if prob and bad is None:
+            bad = (text, tos, prob, ma, ra, r)
+    if bad:
+        text, tos, prob, ma, ra, r = bad
+        check.violation("--target-os %s: the generated items / members differ from the documented rule: %s" % (tos, prob),
+                        case={"source": text, "target_os": tos, "request": r}, impl=ra, model=ma, failing_input=True)
+        return
+    if diffs:
+        i = diffs[0]
+        check.violation("parser::parse differs from the model with target_os=%s: %s" % (cases[i][1], l1.first_diff(mans[i], rans[i])),
+                        case={"source": cases[i][4], "target_os": cases[i][1], "request": cases[i][3]}, impl=rans[i], model=mans[i],
+                        failing_input=False, broken="correspondence L1 (theorems TsV.C13.file_level/item_level/member_level)")
+        return
+    # the command-line option itself
+    src = ("#![cfg(feature = \"x\")]\n#[typeshare]\n#[cfg(target_os = \"ios\")]\npub struct OnlyIos { pub a: u8 }\n\n"
+           "#[typeshare]\npub struct Both {\n    #[cfg(not(target_os = \"android\"))]\n    pub not_android: u8,\n    pub always: u8,\n}\n\n"
+           "#[typeshare]\npub enum E {\n    #[cfg(any(target_os = \"ios\", target_os = \"macos\"))]\n    Apple,\n    Other,\n}\n")
+    for tos, want in ((None, {"OnlyIos", "not_android", "Apple"}), (["ios"], {"OnlyIos", "not_android", "Apple"}),
+                      (["android"], set()), (["macos", "android"], {"Apple"}), (["linux"], {"not_android"})):
+        with Scratch() as sc:
+            sc.write("p/src/lib.rs", src)
+            args = ["--lang", "typescript", "-o", sc.path("o.ts"), sc.path("p")] + (["--target-os"] + tos if tos else [])
+            r = run_cli(args, cwd=sc.dir)
+            text = open(sc.path("o.ts")).read() if os.path.exists(sc.path("o.ts")) else ""
+        got = {w for w in ("OnlyIos", "not_android", "Apple") if w in text}
+        check.saw(("cli", tuple(tos or [])), nontrivial=True)
+        check.count("cli-target-os")
+        if r["rc"] != 0 or got != want or "always" not in text or "Other" not in text:
+            check.violation("typeshare --target-os %s generated %s, the documented rule gives %s" % (tos, sorted(got), sorted(want)),
+                            case={"source": src, "target_os": tos}, impl={"rc": r["rc"], "output": text}, failing_input=True)
+            return
+
+
+_run_l0 = run
+
+
+def run(check):
+    _run_l0(check)
+    if not check.violations:
+        level_part(check)
+    check.rule += ("; attachment levels: random programs with cfg attributes on the file, on types, on variants, on fields and on "
+                   "struct-variant fields (45% of positions) x 6 target lists through parser::parse, checked against an independent "
+                   "python reading of the documented rule, plus the --target-os option of the binary on a fixed program x 5 lists")
